@@ -12,7 +12,7 @@ import (
 func init() {
 	register(&Prop{
 		ID:             "C32",
-		Pkgs:           []string{"network"},
+		Pkgs:           []string{"network", "common/crypto"},
 		Run:            runC32,
 		MinObligations: 15,
 		Technique:      "static analysis: guard dominance of every identity assignment by the verification result, argument provenance of signed/verified content (this peer's session secret), who-may-write on Peer.id and secureKey.extra, sibling agreement of the two signature handlers",
@@ -204,6 +204,131 @@ func runC32(c *Ctx) {
 					c.check(set, "C32.proceed-after-proof", "failure response carries an error", al.Pos(), "Error set", "the response built after a failed verification has no error, so the handshake proceeds")
 				}
 			}
+		}
+	}
+	runC32Extra(c)
+}
+
+// runC32Extra: the signed session secret really is HKDF output of this
+// session's fresh key agreement, and only well-formed signatures parse.
+func runC32Extra(c *Ctx) {
+	const pkg = "network"
+	if f := c.mustFn(pkg, "secureKey", "hkdf"); f != nil {
+		var buf ssa.Value
+		for _, cs := range c.calls(f, byCallee("io.ReadFull")) {
+			_, a := callArgs(cs.Common())
+			buf = unsliceBase(a[1])
+		}
+		if buf == nil {
+			c.undecided("C32.session-secret", "hkdf output buffer", f.Pos(), "io.ReadFull(kdf, b) not found")
+		} else {
+			filled := false
+			for _, cs := range c.calls(f, byCallee("builtin:copy")) {
+				_, a := callArgs(cs.Common())
+				dst, src := unsliceBase(a[0]), unsliceBase(a[1])
+				if dst == buf {
+					c.violate("C32.session-secret", "HKDF output is only read", cs.Pos(), "copy writes into the HKDF output buffer ("+render(a[0])+" ← "+render(a[1])+"): the derived secret it should have filled stays zero")
+				}
+				if render(a[0]) == "$r.extra" || strings.HasPrefix(render(a[0]), "$r.extra[") {
+					ok := src == buf
+					filled = filled || ok
+					c.check(ok, "C32.session-secret", "the session secret (extra) is filled from the HKDF output", cs.Pos(), render(a[1]), "extra is filled from "+render(a[1]))
+				}
+			}
+			c.check(filled, "C32.session-secret", "extra receives HKDF output", f.Pos(), "copy(k.extra, b[n:n+len])", "no copy from the HKDF output into k.extra: the secret that peers sign is the same (all zero) in every session, so a captured signature replays")
+		}
+	}
+	// a fresh ephemeral key per connection
+	if f := c.mustFn(pkg, "", "newSecureKey"); f != nil {
+		n := 0
+		for _, st := range fieldStores([]*ssa.Function{f}, "secureKey", "PrivateKey") {
+			n++
+			ex, ok := st.Store.Val.(*ssa.Extract)
+			fresh := false
+			if ok && ex.Index == 0 {
+				if call, ok := ex.Tuple.(*ssa.Call); ok && calleeName(call.Common()) == "crypto/ecdsa.GenerateKey" {
+					fresh = true
+				}
+			}
+			c.check(fresh, "C32.session-secret", "every secureKey gets a newly generated ephemeral key", st.Store.Pos(), "ecdsa.GenerateKey(...)", "the key is "+render(st.Store.Val)+": an ephemeral key shared between connections makes the session secret repeat between sessions of the same two nodes")
+		}
+		for _, e := range exitAlts(f) {
+			_, isAl := unwrap(e.Results[0]).(*ssa.Alloc)
+			c.check(isAl, "C32.session-secret", "newSecureKey returns a new object", e.pos(), "fresh", "returns "+render(e.Results[0]))
+		}
+		if n == 0 {
+			c.undecided("C32.session-secret", "newSecureKey", f.Pos(), "no store to PrivateKey")
+		}
+	}
+	// TLS: every presented certificate is pinned to the peer's session key
+	if f := c.mustFn(pkg, "secureKey", "verifyCertificate"); f != nil {
+		var acc ssa.Value
+		for _, cs := range c.calls(f, byCallee("builtin:append")) {
+			_, a := callArgs(cs.Common())
+			if strings.Contains(a[0].Type().String(), "x509.Certificate") {
+				acc = a[0]
+			}
+		}
+		n := 0
+		for _, b := range f.Blocks {
+			for _, in := range b.Instrs {
+				fa, ok := in.(*ssa.FieldAddr)
+				if !ok || fieldName(fa.X.Type(), fa.Field) != "PublicKey" {
+					continue
+				}
+				ld, ok := fa.X.(*ssa.UnOp)
+				if !ok {
+					continue
+				}
+				ia, ok := ld.X.(*ssa.IndexAddr)
+				if !ok {
+					continue
+				}
+				n++
+				idx, _ := ia.Index.(*ssa.BinOp)
+				okAll := acc != nil && ia.X == acc
+				if okAll && idx != nil {
+					phi, isPhi := idx.X.(*ssa.Phi)
+					okAll = isPhi && idx.Op == token.ADD
+					if okAll {
+						start := false
+						for i, e := range phi.Edges {
+							if !phi.Block().Dominates(phi.Block().Preds[i]) {
+								k, ok := constInt(e)
+								start = ok && k == -1
+							}
+						}
+						okAll = start
+					}
+				} else {
+					okAll = false
+				}
+				c.check(okAll, "C32.tls-pin", "the certificate pin runs over every parsed certificate", fa.Pos(), "range certs", "the pinned list is "+render(ia.X)+"["+render(ia.Index)+"]: some presented certificate (the leaf) is not compared with the peer's session key")
+			}
+		}
+		if n == 0 {
+			c.undecided("C32.tls-pin", "verifyCertificate", f.Pos(), "no certificate key comparison found")
+		}
+	}
+	// malformed signatures do not parse
+	if f := c.mustFn("common/crypto", "", "parseSignature"); f != nil {
+		rawV, ok1 := c.constVal("common/crypto", "SignatureLenRawWithV")
+		raw, ok2 := c.constVal("common/crypto", "SignatureLenRaw")
+		n := 0
+		for _, e := range successAlts(f) {
+			if isNilConst(e.Results[0]) {
+				continue
+			}
+			n++
+			if !ok1 || !ok2 {
+				c.undecided("C32.signature-format", "signature length constants", e.pos(), "not found")
+				continue
+			}
+			c.requireAny("C32.signature-format", "parseSignature accepts", e.pos(), e.Guards, "len(sig) is exactly the [R|S] or [R|S|V] length",
+				wEQ("len == 65", -rawV, t(1, `^len\(\$0\)$`)), wEQ("len == 64", -raw, t(1, `^len\(\$0\)$`)))
+		}
+		if n < 2 {
+			c.undecided("C32.signature-format", "parseSignature", f.Pos(), fmt.Sprintf("expected 2 accepting exits, found %d", n))
 		}
 	}
 }
